@@ -408,8 +408,10 @@ func descSDL(desc, indent string, o SDLOpts) string {
 		return ""
 	}
 	if o.BlockDesc || strings.Contains(desc, "\n") {
-		// block string: only the sequence """ needs escaping; backslashes are literal
-		body := strings.ReplaceAll(desc, `"""`, `\"""`)
+		// block string: the sequence """ needs escaping; ggql's reader also processes backslash
+		// escapes inside block strings, so a backslash is written doubled (ggql's dialect)
+		body := strings.ReplaceAll(desc, `\`, `\\`)
+		body = strings.ReplaceAll(body, `"""`, `\"""`)
 		lines := strings.Split(body, "\n")
 		return indent + `"""` + "\n" + indent + strings.Join(lines, "\n"+indent) + "\n" + indent + `"""` + "\n"
 	}
